@@ -423,4 +423,17 @@ Section Cells.
     rewrite (converted_iff cells key c Hn Hin), (Hs key c Hin).
     destruct (is_zero c); intuition (try discriminate; auto).
   Qed.
+
+  (* the writer's "if key in skipped_cells: continue" never fires on a cell
+     handed to the conversion *)
+  Theorem conv_keys_not_skipped imp_cards cards lats cells skipped key :
+    parse_cells Sc P imp_cards cards lats = Ok (cells, skipped) ->
+    In key (conv_keys Sc cells) -> ~ In key skipped.
+  Proof.
+    intros H Hin. destruct (skipped_iff_zero _ _ _ _ _ H) as (_ & Hn & Hs).
+    unfold conv_keys in Hin. apply in_map_iff in Hin. destruct Hin as ([k c] & Hk & Hf).
+    cbn [fst] in Hk. subst k. apply filter_In in Hf. destruct Hf as [Hin Hc]. cbn [snd] in Hc.
+    rewrite (Hs key c Hin). unfold converted in Hc. unfold is_zero.
+    destruct (c_imp c) as [v|]; [|discriminate]. destruct (seqb Sc v (s0 Sc)); [discriminate|discriminate].
+  Qed.
 End Cells.
